@@ -275,7 +275,7 @@ func Graph(r *mon.Rng, maxTypes int) *model.Schema {
 				rc := mon.Pick(r, RegexTable)
 				t = &model.TypeDef{Name: tname(i), Root: model.Str(mon.Pick(r, rc.Match)).With(model.RStr("regex", rc.Pattern))}
 			case 1:
-				t = &model.TypeDef{Name: tname(i), Root: model.Str("K"+strconv.Itoa(i)).With(model.REnum(`"K`+strconv.Itoa(i)+`"`, `"L`+strconv.Itoa(i)+`"`))}
+				t = &model.TypeDef{Name: tname(i), Root: model.Str("K" + strconv.Itoa(i)).With(model.REnum(`"K`+strconv.Itoa(i)+`"`, `"L`+strconv.Itoa(i)+`"`))}
 			default:
 				t = &model.TypeDef{Name: tname(i), Root: model.Str("kk"+strconv.Itoa(i)).With(model.RInt("minLength", 3), model.RInt("maxLength", 4))}
 			}
